@@ -88,13 +88,14 @@ def decConfVals : List String → Option ConfVals
   | _ => none
 
 def decKw : List String → Option Kw
-  | [to, no, pr, pf, ac] => do
+  | [to, no, pr, pf, ac, nl] => do
     let to ← decOpt to
     let no ← decOptBool no
     let pr ← decOptBool pr
     let pf ← decOptBool pf
     let ac ← decOptBool ac
-    pure { to := to, notice := no, priv := pr, prefixNick := pf, action := ac }
+    let nl ← decOptBool nl
+    pure { to := to, notice := no, priv := pr, prefixNick := pf, action := ac, noLengthCheck := nl }
   | _ => none
 
 def decOptConf (name : String) (vals : List String) : Option (Option (Str × ConfVals)) :=
@@ -105,7 +106,7 @@ def decOptConf (name : String) (vals : List String) : Option (Option (Str × Con
 
 def decCall (fs : List String) : Option Call :=
   match fs with
-  | bp :: mp :: nick :: mt :: mc :: k1 :: k2 :: k3 :: k4 :: k5 :: hasInner :: i1 :: i2 :: i3 :: i4 :: i5 :: ts :: pt :: pn ::
+  | bp :: mp :: nick :: mt :: mc :: k1 :: k2 :: k3 :: k4 :: k5 :: k6 :: hasInner :: i1 :: i2 :: i3 :: i4 :: i5 :: i6 :: ts :: pt :: pn ::
       pm :: ct :: cm :: tn :: th :: sc :: lang :: nwp :: rest =>
     if rest.length ≠ 9 + 10 + 10 + 10 then none else do
       let bp ← dec bp
@@ -113,9 +114,9 @@ def decCall (fs : List String) : Option Call :=
       let nick ← dec nick
       let mt ← dec mt
       let mc ← decOpt mc
-      let kw ← decKw [k1, k2, k3, k4, k5]
+      let kw ← decKw [k1, k2, k3, k4, k5, k6]
       let hasInner ← decBool hasInner
-      let ki ← decKw [i1, i2, i3, i4, i5]
+      let ki ← decKw [i1, i2, i3, i4, i5, i6]
       let ts ← decOpt ts
       let pt ← decBool pt
       let pn ← decBool pn
